@@ -317,3 +317,63 @@ impl Subject {
         }
     }
 }
+
+/* ---------------------------------- lowering ---------------------------------- */
+
+pub enum LowerFail {
+    /// no public lowering path for this root (not a verdict)
+    NoPath(String),
+    /// typed error returned by the lowering API
+    Error(String),
+    Panic(&'static str, PanicInfo),
+}
+
+impl Subject {
+    /// Lower an accepted root through stack IR, closure conversion and assembly, stage by stage
+    /// under catch_unwind (mirrors `zydeco_cli::BackendProgram::lower`).
+    pub fn lower(&self) -> Result<zydeco_cli::BackendProgram, LowerFail> {
+        use zydeco_stackir::{BuiltinRootLowerer, RootLowerer, SpsLowPipeline};
+        use zydeco_surface::scoped::arena::ScopedArena;
+        use zydeco_utils::pass::CompilerPass;
+        let Ok(analysis) = &self.result else { return Err(LowerFail::NoPath("analysis error".into())) };
+        enum Root {
+            Exe(zydeco_session::ExecutableProgram),
+            Plain(zydeco_session::CheckedProgram, zydeco_statics::syntax::CompuId),
+        }
+        let root = match self.session.executable_program(analysis) {
+            | Ok(exe) => Root::Exe(exe),
+            | Err(zydeco_session::ExecutableError::NonBuiltinExecutable { .. }) => {
+                let Some(checked) = self.session.checked_program(analysis) else { return Err(LowerFail::NoPath("not checked".into())) };
+                let TermAnnId::Compu(c, _) = checked.root else { return Err(LowerFail::NoPath("non-computation root".into())) };
+                Root::Plain(checked, c)
+            }
+            | Err(e) => return Err(LowerFail::NoPath(format!("{e}"))),
+        };
+        let (spans, scoped, statics) = match &root {
+            | Root::Exe(e) => (e.spans.clone(), e.scoped.clone(), e.statics.clone()),
+            | Root::Plain(c, _) => (c.spans.clone(), c.scoped.clone(), c.statics.clone()),
+        };
+        let mut lowering_scoped = ScopedArena::default();
+        lowering_scoped.defs = statics.scoped_definitions(&scoped);
+        let high = guarded(|| match &root {
+            | Root::Exe(e) => BuiltinRootLowerer::new(&spans, &mut lowering_scoped, &statics, e.root, e.signature.clone()).run().map_err(|e| format!("{e}")),
+            | Root::Plain(_, c) => RootLowerer::new(&spans, &mut lowering_scoped, &statics, *c).run().map_err(|e| format!("{e:?}")),
+        });
+        let high = match high {
+            | Ok(Ok(h)) => h,
+            | Ok(Err(e)) => {
+                return Err(if e.contains("abstract `os` witness") || e.contains("is not its abstract") { LowerFail::NoPath(e) } else { LowerFail::Error(e) });
+            }
+            | Err(p) => return Err(LowerFail::Panic("stack-ir lowering", p)),
+        };
+        let sps_low = match guarded(|| SpsLowPipeline::new(&mut lowering_scoped).run(high)) {
+            | Ok(s) => s,
+            | Err(p) => return Err(LowerFail::Panic("closure conversion", p)),
+        };
+        let assembly = match guarded(|| zydeco_assembly::LoweringPipeline::new(&spans, &lowering_scoped, &statics, &sps_low).run()) {
+            | Ok(a) => a,
+            | Err(p) => return Err(LowerFail::Panic("assembly lowering", p)),
+        };
+        Ok(zydeco_cli::BackendProgram { spans, scoped: lowering_scoped, statics, sps_low, assembly })
+    }
+}
